@@ -174,6 +174,7 @@ impl Oplog {
                     // carrying the other header bit are leftovers that a flush had already
                     // folded into the header when the process died before truncating them.
                     let current_header_bit = outcome.oplog.get_current_header_bit();
+                    let entries_total_length = entries_buff.len();
                     while let Some(entry_outcome) = Self::validate_leader(entries_buff)? {
                         if entry_outcome.header_bit != current_header_bit {
                             break;
@@ -183,6 +184,10 @@ impl Oplog {
                         entries_buff = res.1;
                         partials.push(entry_outcome.partial_bit);
                     }
+                    // New entries must be appended after the ones already in the log.
+                    outcome.oplog.entries_length = entries.len() as u64;
+                    outcome.oplog.entries_byte_length =
+                        (entries_total_length - entries_buff.len()) as u64;
 
                     // Remove all trailing partial entries
                     while !partials.is_empty() && partials[partials.len() - 1] {
